@@ -181,13 +181,17 @@ class IdentityEnsembleArray(nengo.Network):
         nengo.Node
             Node providing the decoded output.
         """
+        has_second = self.subdimensions > 1
+        has_remainder = self.dimensions > self.subdimensions
+        n_remainder = self.remainder.n_ensembles if has_remainder else 0
+
         if is_iterable(function):
             function = list(function)
-            if len(function) != 3 and len(function) != self.remainder.n_ensembles + 2:
+            if len(function) != 3 and len(function) != n_remainder + 2:
                 raise ValidationError(
-                    "Must provide one function per ensemble or one function "
-                    "each for the first ensemble, the second ensembles, and "
-                    "all remaining ensembles.",
+                    "Must provide one function per ensemble or one function each "
+                    "for the first ensemble, the second ensembles, and all "
+                    "remaining ensembles.",
                     attr="function",
                 )
             first_fn = function[0]
@@ -197,11 +201,14 @@ class IdentityEnsembleArray(nengo.Network):
             first_fn = second_fn = remainder_fn = function
 
         first_size = np.asarray(first_fn(np.zeros(self.first.dimensions))).size
-        second_size = np.asarray(second_fn(np.zeros(self.second.dimensions))).size
+        second_size = 0
+        if has_second:
+            second_size = np.asarray(second_fn(np.zeros(self.second.dimensions))).size
         remainder_start = first_size + second_size
-
-        remainder_fn_out = self.remainder.add_output(name, remainder_fn)
-        remainder_size = remainder_fn_out.size_out
+        remainder_size = 0
+        if has_remainder:
+            remainder_fn_out = self.remainder.add_output(name, remainder_fn)
+            remainder_size = remainder_fn_out.size_out
 
         output = nengo.Node(
             size_in=first_size + second_size + remainder_size, label=name
@@ -215,15 +222,19 @@ class IdentityEnsembleArray(nengo.Network):
             synapse=synapse,
             **conn_kwargs,
         )
-        nengo.Connection(
-            self.second,
-            output[first_size:remainder_start],
-            function=second_fn,
-            synapse=synapse,
-            **conn_kwargs,
-        )
-        nengo.Connection(
-            remainder_fn_out, output[remainder_start:], synapse=synapse, **conn_kwargs
-        )
-
+        if has_second:
+            nengo.Connection(
+                self.second,
+                output[first_size:remainder_start],
+                function=second_fn,
+                synapse=synapse,
+                **conn_kwargs,
+            )
+        if has_remainder:
+            nengo.Connection(
+                remainder_fn_out,
+                output[remainder_start:],
+                synapse=synapse,
+                **conn_kwargs,
+            )
         return output
